@@ -1,7 +1,14 @@
 (* C15: `knut infer` edits only the placeholder account.
-   op C15.infer  input: "<fixed|orig> <hex placeholder> <hex training> <hex target>"
+   op C15.infer  input: "<fixed|orig> <hex placeholder> <training> <hex target>"
      (first field: model variant; fixed = the repaired code, /repo e8bd689, the default; orig = the code before it,
       kept for replaying the cases of findings/C15-infer.md)
+     <training> = <hex of the one training file>
+                | tree:<hex path>=<hex content>,<hex path>=<hex content>,...   an include tree, first entry = the file
+                  given to -t; paths relative to the training directory.  The model of the training load is
+                  Model/InferFs.v [training_files] (Model/Loader.v on the skeleton of the tree: include resolution,
+                  cycle detection, missing / unparseable files) and [training_sems] (the meanings of all visited
+                  files); a single file is the tree with one entry.  The command on these meanings is
+                  [infer_with_sems] (= Model/Bayes.v infer_with on one file: C15_training_without_includes).
      observed: OK <hex stdout> ; <Go tree of stdout | REPARSE-ERR> ; <det|nondet>  |  ERR <hex stdout>
      model   : OK <hex> | ERR       (checks/c15.py compares with the first field / "ERR")
                the implementation's choices (read off the observed tree at the placeholder
@@ -94,22 +101,46 @@ let read_choices ph (target : F.sem_directive list) (out : F.sem_directive list)
       | _ -> ()) target out;
   if !ok then Some (List.rev !acc) else None
 
+(* the training field: a file system of Model/InferFs.v and the path given to -t *)
+let decode_training (field : string) : (K.z list list * K.z list) list * K.z list list =
+  let path_of s = K.LoaderM.path_of_string (Drv_journal.str_of_string s) in
+  let pfx = "tree:" in
+  let n = String.length pfx in
+  if String.length field >= n && String.sub field 0 n = pfx then begin
+    let entries = List.filter (fun e -> e <> "") (String.split_on_char ',' (String.sub field n (String.length field - n))) in
+    let fs = List.map (fun e ->
+      match String.index_opt e '=' with
+      | Some i -> (K.LoaderM.path_of_string (text_of_hex (String.sub e 0 i)), text_of_hex (String.sub e (i + 1) (String.length e - i - 1)))
+      | None -> failwith "bad tree entry") entries in
+    match fs with
+    | (root, _) :: _ -> (fs, root)
+    | [] -> ([], path_of "missing.knut")
+  end else
+    ([ (path_of "training.knut", text_of_hex field) ], path_of "training.knut")
+
 let () =
   register "C15.infer" (fun inp obs ->
     match String.split_on_char ' ' inp with
     | [variant; hph; htr; htg] ->
       let v = if variant = "orig" then K.BayesM.Orig else K.BayesM.Fixed in
-      let ph = text_of_hex hph and training = text_of_hex htr and target = text_of_hex htg in
-      let ptr = K.SynM.parse_text letter digit training and ptg = K.SynM.parse_text letter digit target in
+      let ph = text_of_hex hph and target = text_of_hex htg in
+      let (fs, troot) = decode_training htr in
+      (* syntax.ParseFileRecursively on the training journal: the visited files, or an error *)
+      let loaded =
+        match K.InferFsM.training_files letter digit fs troot with
+        | K.InferFsM.TrOk files -> Some (K.InferFsM.training_sems letter digit fs files)
+        | K.InferFsM.TrErr _ -> None
+        | K.InferFsM.TrFuel -> failwith "training_files: out of fuel" in
+      let ptg = K.SynM.parse_text letter digit target in
       let obs_fields = Drv_c08.split_fields obs in
       let obs_ok = Drv_c07.starts_with "OK " obs in
       let out_text, out_tree, det =
         match obs_fields with
         | [a; b; c] when obs_ok -> (Some (text_of_hex (String.sub a 3 (String.length a - 3))), b, c)
         | _ -> (None, "", "") in
-      (match ptr, ptg with
-       | K.SynM.ParseOk ftr, K.SynM.ParseOk ftg ->
-         let tr_sems = F.sem training ftr and tg_sems = F.sem target ftg in
+      (match loaded, ptg with
+       | Some tr_sems, K.SynM.ParseOk ftg ->
+         let tg_sems = F.sem target ftg in
          let out_file =
            match out_text with
            | Some _ when out_tree <> "REPARSE-ERR" ->
@@ -127,7 +158,7 @@ let () =
                 | None -> None)
              | None -> None in
          let model =
-           match K.BayesM.infer_with ph v letter digit choose training target with
+           match K.InferFsM.infer_with_sems letter digit ph v choose tr_sems target with
            | K.BayesM.InferOut o -> "OK " ^ hex_of_text o
            | K.BayesM.InferErr -> "ERR"
            | K.BayesM.InferBad -> "BAD" in
@@ -149,11 +180,12 @@ let () =
              | _ -> "FAIL:output-does-not-parse" in
          (model, spec)
        | _ ->
-         (* a file does not parse: the command must fail and print nothing *)
+         (* the training journal does not load (a file of the include graph is missing or does not parse, an
+            include cycle) or the target does not parse: the command must fail and print nothing *)
          let spec =
            if obs = "ERR " then "ok"
            else if Drv_c07.starts_with "ERR " obs then "FAIL:error-with-output"
-           else if obs_ok then "FAIL:succeeded-on-unparseable-file"
+           else if obs_ok then "FAIL:succeeded-on-unloadable-files"
            else "FAIL:" ^ (if String.length obs > 40 then String.sub obs 0 40 else obs) in
          ("ERR", spec))
     | _ -> ("BADINPUT", "EXN"))
